@@ -26,8 +26,8 @@ LEVEL_TEXT = {
  'C19': ('fault_enumeration', 'For every generated script of constructor calls, every allocation made from note.c / counter.c call sites is failed in turn (exhaustive per script) on the simulated allocator; NULL result, unchanged and usable existing objects.', '6.19'),
 }
 NATIVE_NOTE = 'trusted base: the reference model / 128-bit oracle / child-process judge in native/, clang sanitizers, rapidcheck and libFuzzer; C15 depends on the host clock (watchdog hits are re-run, only 3/3 hangs count)'
-NATIVE_TECH = {'C15': 'property-based testing (exhaustive boundary grid + rapidcheck-generated deadlines against the real libraries, one child process per case)', 'C17': 'model-based property testing (exhaustive state-graph enumeration + rapidcheck sequences + libFuzzer, array reference model, ASan/UBSan)', 'C18': 'property-based testing and fuzzing (exhaustive boundary grid + rapidcheck + libFuzzer against a 128-bit integer oracle, UBSan)'}
-TECH = 'property-based testing (rapidcheck-generated programs+schedules on a deterministic simulator of the nsync platform layer, explicit oracle, shrinking to a replay tape)'
+NATIVE_TECH = {'C15': 'property-based testing (exhaustive boundary grid + rapidcheck-generated deadlines against the real libraries, one child process per case; plus the same deadline domain on the simulator with a modelled kernel futex)', 'C17': 'model-based property testing (exhaustive state-graph enumeration + rapidcheck sequences + libFuzzer, array reference model, ASan/UBSan)', 'C18': 'property-based testing and fuzzing (exhaustive boundary grid + rapidcheck + libFuzzer against a 128-bit integer oracle, UBSan)'}
+TECH = 'property-based testing and coverage-guided fuzzing (rapidcheck- and libFuzzer-generated tapes = program + schedule + clock + faults, run on a deterministic simulator of the nsync platform layer against an explicit oracle; failures shrink to a replay tape)'
 
 def main():
     props = [json.loads(l) for l in open('/verif/properties.jsonl')]
@@ -55,7 +55,7 @@ def main():
                         baseline_off_cmd='cd /repo && cmake -G Ninja -S . -B _build >/dev/null && cmake --build _build >/dev/null && ctest --test-dir _build -j8 --timeout 900',
                         source_commits=[], add_only=True),
              engines=[dict(name='simrt', path='sim/', serves_properties=[c['property_id'] for c in checks if c['engine'] == 'simrt'],
-                           kind_free_text='deterministic simulator of nsync\'s platform layer (fibers, virtual clock, modelled futex, vector clocks, lifetime tracking) driven by rapidcheck-generated tapes'),
+                           kind_free_text='deterministic simulator of nsync\'s platform layer (fibers, virtual clock, modelled futex, vector clocks, lifetime tracking) driven by rapidcheck-generated tapes (16 shards) and a libFuzzer burst over the same tapes'),
                       dict(name='native', path='native/', serves_properties=[c['property_id'] for c in checks if c['engine'] == 'native'],
                            kind_free_text='rapidcheck / libFuzzer / exhaustive enumeration against the natively compiled sources or the real libraries')],
              checks=checks,
